@@ -1,6 +1,7 @@
 package main
 
 import (
+	"time"
 	"fmt"
 	"path/filepath"
 	"go/constant"
@@ -104,6 +105,8 @@ type Exec struct {
 	P         *Loaded
 	st        *State
 	cleanExit *Term // path conditions of os.Exit(0) in driver mode
+	deadline  time.Time // execution budget of the target
+	steps     int
 	loopSeen, loopBack map[string]bool // loops cut by invariants / whose back edge was reached
 	ropes map[*Object]*rope // how byte strings were put together by successive writes (models_buf.go)
 	assumes   []*Term
@@ -316,8 +319,10 @@ func (x *Exec) oblige(class, label string, goal *Term, pos token.Pos) {
 	if os.Getenv("GOVC_DEBUG_OBL") != "" {
 		fmt.Fprintf(os.Stderr, "OBL %s trivial=%v pc=%s goal=%s\n", name, o.Trivial, x.pc().Short(), goal.Short())
 	}
-	// later obligations may rely on this one
-	x.assume(goal)
+	// later obligations may rely on this one (not on a vacuity guard: its goal is "false")
+	if class != "V" {
+		x.assume(goal)
+	}
 	if class == "S" && goal.IsFalse() && x.st != nil {
 		// a definite panic: the path ends here
 		x.st.pc = False()
@@ -346,6 +351,10 @@ func (x *Exec) run(fr *Frame, st *State, b *ssa.BasicBlock, stop *ssa.BasicBlock
 			return st
 		}
 		curExec = x
+		x.steps++
+		if x.steps&63 == 0 && !x.deadline.IsZero() && time.Now().After(x.deadline) {
+			unsup("execution budget of the target exceeded (%d s)", targetBudgetSecs)
+		}
 		if x.dryLoop != nil && b.Parent() == x.dryLoop.head.Parent() && !x.dryLoop.blocks[b] {
 			return nil
 		}
